@@ -87,7 +87,9 @@ def gen(ctx, seed, tier):
             256: (16, 4) if quick else (300, 50), 4096: (4, 2) if quick else (60, 16)}
     for page, (nprobe, nrem) in plan.items():
         for j in range(nprobe + nrem):
-            h = bt.gen_history(r, page, tier, flags="2", walks=False, allow_oracle=False, null_p=r.choice([0.0, 0.0, 0.2]))
+            # comparator magnitude: -1/1, the key difference ('d'), INT_MIN/INT_MAX ('x'): only the sign may matter
+            h = bt.gen_history(r, page, tier, flags="2" + r.choice(["", "", "", "", "d", "x"]), walks=False, allow_oracle=False,
+                               null_p=r.choice([0.0, 0.0, 0.2]))
             base = [o for o in h.ops if o != "w"]
             if j < nprobe:
                 cases.append("%d 2 %s w %s" % (page, " ".join(base), " ".join(probe_ops(r, h.keys))))
